@@ -2,7 +2,9 @@ SPEC = {
     "id": "C15",
     "level_text": "Theorems (Coq, all route dumps of any length): with the ::/0 wildcard the advertised routes are exactly the IPv6 non-/128 routes of the dump that are not contained in a strictly shorter IPv6 route of the dump, without duplicates, strictly ascending by address, a function of the SET of dumped routes only (permutation- and multiplicity-invariant); every dumped IPv6 non-host route is covered by an advertised one; for a canonical dump (no host bits, as the kernel guarantees) no two advertised routes overlap; every option carries the stanza's preference and (C16) lifetime; a dump failure is an error. The executable model of Route.current/apply/Apply (code as repaired by a252649) is tied to the real code by differential runs on injected dumps.",
     "level_note": "Trusted: Coq kernel + vm_compute; the Go driver and the rendering of cases; net/netip Prefix.Contains / IsSingleIP / Addr.Compare are modelled arithmetically (Base.IP) and sampled by the correspondence; the rtnetlink loopback route dump is outside the model.",
-    "drivers": [{"pkg": "internal/plugin", "test": "TestVerifC15"}],
+    "drivers": [{"pkg": "internal/plugin", "test": "TestVerifC15"},
+                # the rtnetlink layer that produces the loopback route dump (shared with C13)
+                {"pkg": "internal/system", "test": "TestVerifC13Addresser", "corr_module": "Corr.C13sys"}],
     "rule": "bounded-exhaustive: every sequence with repetition of length <= 3 (quick) / <= 4 (thorough) over a 14-entry pool "
             "(= all subsets x all permutations, plus all multiplicities) with /32 > /48 > /64 at the same base, /48 and /64 at other "
             "bases, /128s at a covered base and elsewhere, ::/0, fd00::/8 > /64, IPv4 routes incl. 0.0.0.0/0, one non-canonical "
